@@ -4,7 +4,7 @@
    tools/props/C14.py (dump -> events -> pairing -> tables -> lines, for all 64 switch settings). *)
 From Coq Require Import String NArith List Bool.
 From Kd Require Import theories.Base theories.Printers theories.Container theories.DecoderDSL theories.Format theories.FormatLog
-  theories.FormatIR gen.GenFormat theories.FormatRefine.
+  theories.FormatIR gen.GenFormat theories.FormatRefine theories.TraceIR gen.GenTrace theories.TraceRefine.
 Import ListNotations.
 Open Scope N_scope.
 
@@ -99,3 +99,16 @@ Theorem c14_code_log_line : forall c color tb tstext tid hp msg,
 Proof. exact log_code_refines. Qed.
 Theorem c14_code_process_column : forall tb tid, render_process gen_process tb tid = format_process tb tid.
 Proof. exact process_code_refines. Qed.
+
+(* the table writes of the model are the statements of the code: for every decoder that writes threads_pids / pids_names (the
+   kernel-trace data / string decoders of trace.py and the sampler's thread-data decoder), the statements
+   tools/translate/tr_trace.py reads off the current source - dataclass fields resolved to the START words they are built from -
+   performed on any state for any window whose head the code table names so, give exactly the model's apply_window; the
+   model has no writer kind the source lacks, and the decoders the translator found not to write have no kind *)
+Theorem c14_code_table_writes : forall (kind : N -> N) n prog st h w,
+  In (n, prog) gen_writers -> kind (e_eid h) = tk_of_name n -> apply_window kind st (h :: w) = wexec st h prog.
+Proof. exact code_writes_are_model_writes. Qed.
+Theorem c14_code_writers_complete :
+  map (fun p => tk_of_name (fst p)) gen_writers = [TK_DATA_NEW; TK_DATA_EXEC; TK_STR_NEW; TK_STR_EXEC; TK_TERM_PID; TK_THD_DATA]
+  /\ forallb (fun n => N.eqb (tk_of_name n) 0) gen_nonwriters = true.
+Proof. split; [exact writers_complete | exact nonwriters_have_no_kind]. Qed.
